@@ -704,5 +704,6 @@ pub fn parts() -> Vec<Box<dyn PartDyn>> {
         shrink_budget: 250,
         confirm_runs: 3,
             fuzz: None,
+            watchdog_s: 60,
     })]
 }
